@@ -52,6 +52,17 @@ def fit(machine_, case):
     return machine_.fit(data_arg(case))
 
 
+def zero_rows(draw, c):
+    """Some training rows sit exactly at the origin (silent / zero-padded frames) and form blocks of their own."""
+    k = gen.choice(draw, [0, 0, 1, 2])
+    n = c["X"].shape[0]
+    if k and n > k + 1:
+        c["X"] = np.array(c["X"], copy=True)
+        c["X"][:k] = 0.0
+        c["chunks"] = [1] * k + gen.composition(draw, n - k, max_parts=5)
+        c["zero_rows"] = k
+
+
 def data_arg(case):
     X = case["X"]
     if case.get("dask"):
@@ -73,6 +84,7 @@ def g_step(draw):
     c["dask"] = gen.boolean(draw)
     c["isolate"], c["order_seed"] = gen.boolean(draw), gen.integer(draw, 0, 999)
     c["chunks"] = gen.composition(draw, c["X"].shape[0])
+    zero_rows(draw, c)
     c["count_floor"] = gen.choice(draw, [EPS, EPS, 1e-6])
     c["how"] = gen.presentation_for(draw, c)
     c["unknown_chunks"] = c["dask"] and gen.choice(draw, [False, False, True])
@@ -114,6 +126,7 @@ def g_traj(draw):
     c["unknown_chunks"] = c["dask"] and gen.choice(draw, [False, False, True])
     c["isolate"], c["order_seed"] = gen.boolean(draw), gen.integer(draw, 0, 999)
     c["chunks"] = gen.composition(draw, c["X"].shape[0], max_parts=6)
+    zero_rows(draw, c)
     return c
 
 
@@ -168,6 +181,7 @@ def g_stop(draw):
     c["dask"] = gen.boolean(draw)
     c["isolate"], c["order_seed"] = gen.boolean(draw), gen.integer(draw, 0, 999)
     c["chunks"] = gen.composition(draw, c["X"].shape[0], max_parts=6)
+    zero_rows(draw, c)
     # a Dask array whose shape and chunk sizes are unknown until computed (lazy boolean selection of the rows)
     c["unknown_chunks"] = c["dask"] and gen.choice(draw, [False, False, True])
     return c
